@@ -486,6 +486,14 @@ Proof.
   unfold doc_events, indent_opt. destruct (k =? 0); [rewrite wr_none; reflexivity|apply indent_invisible].
 Qed.
 
+(* the same in the shape "literals (indent n doc) = literals doc": the literal values a reader
+   finds in the document, in order *)
+Definition literals (strict : bool) (evs : list event) : option (list str) :=
+  option_map (flat_map (fun t : rtriple => match lit_text (snd t) with Some v => [v] | None => [] end)) (read strict evs).
+Corollary literals_indent strict n ts :
+  literals strict (wr (Some n) false 0 (fmt_doc ts)) = literals strict (fmt_doc ts).
+Proof. unfold literals. rewrite indent_invisible. reflexivity. Qed.
+
 (* the indenting writer only ever adds EPad events: dropping them gives back the input *)
 Fixpoint unpad (evs : list event) : list event :=
   match evs with [] => [] | EPad _ :: r => unpad r | e :: r => e :: unpad r end.
